@@ -779,6 +779,16 @@ class RefLoader:
             if g.n_autoescape > 1:
                 raise RefEither("multi_autoescape")
         self._check_jumps(chain[-1].body, False, table, ())
+        # every file that gets loaded (ancestors, included files) is a template of its own as well and is
+        # compiled as such: the same question arises for each of them as an entry point
+        for g in list(self.cache.values()):
+            if g is f:
+                continue
+            gchain = self._chain(g)
+            gtable = {}
+            for anc in reversed(gchain):
+                self._collect_blocks(anc.body, gtable, (anc.name,))
+            self._check_jumps(gchain[-1].body, False, gtable, ())
         return chain[-1], table
 
     def _check_jumps(self, items, in_loop, table, stack):
